@@ -58,6 +58,9 @@ type Event struct {
 	Field string
 	Ver   int
 	Late  bool
+	T time.Time // when the event was recorded
+	// rx: observation points of a rerunner in reactive/rerunner.go (Point: publish | failed | retry | stop | locked)
+	Flag bool
 	// register / cleanup
 	Res int
 	// mwend: top-level keys of the result (taken from the value itself: it may not be encodable)
@@ -95,6 +98,7 @@ func (r *Recorder) addLocked(e Event) {
 	e.G = goid()
 	e.Reader = e.G == r.readerG
 	e.Late = r.cut
+	e.T = time.Now()
 	r.events = append(r.events, e)
 	close(r.changed)
 	r.changed = make(chan struct{})
@@ -150,6 +154,11 @@ func unregister(c interface{}) {
 			delete(accepting, k)
 		}
 	}
+	for k, v := range rerunnerGen {
+		if v.rec == r {
+			delete(rerunnerGen, k)
+		}
+	}
 	regMu.Unlock()
 }
 
@@ -163,10 +172,34 @@ func init() {
 			// called inside reactive.NewRerunner, i.e. on the goroutine that has just passed the accept point of
 			// handleSubscribe / handleMutate of some connection: the rerunner belongs to that connection's case
 			regMu.Lock()
-			if r := accepting[goid()]; r != nil {
+			r := accepting[goid()]
+			if r != nil {
 				rerunners[args[0]] = r
 			}
 			regMu.Unlock()
+			if r != nil {
+				// handleSubscribe / handleMutate hold conn.mu from the accept point to here: the rerunner is the one of
+				// the generation accepted last on this connection
+				r.mu.Lock()
+				g := r.nextGen - 1
+				r.mu.Unlock()
+				regMu.Lock()
+				rerunnerGen[args[0]] = genOf{r, g}
+				regMu.Unlock()
+			}
+			return
+		case "reactive.run.publish", "reactive.run.failed", "reactive.run.retry", "reactive.stop.mark", "reactive.run.locked":
+			// the interface of a rerunner, as the reactive package itself reports it (Server/Iface.v)
+			regMu.Lock()
+			g, ok := rerunnerGen[args[0]]
+			regMu.Unlock()
+			if ok {
+				flag := false
+				if len(args) > 1 {
+					flag, _ = args[1].(bool)
+				}
+				g.rec.add(Event{Kind: "rx", Point: strings.TrimPrefix(strings.TrimPrefix(point, "reactive.run."), "reactive.stop."), Gen: g.gen, Flag: flag})
+			}
 			return
 		case "reactive.run.proceed":
 			// a re-run has finished waiting and is about to take the rerunner's lock
@@ -194,9 +227,15 @@ func init() {
 	})
 }
 
+type genOf struct {
+	rec *Recorder
+	gen int
+}
+
 var (
-	accepting = map[int64]*Recorder{}       // goroutine -> case whose connection is accepting a subscription on it
-	rerunners = map[interface{}]*Recorder{} // *reactive.Rerunner -> case
+	accepting   = map[int64]*Recorder{}       // goroutine -> case whose connection is accepting a subscription on it
+	rerunners   = map[interface{}]*Recorder{} // *reactive.Rerunner -> case
+	rerunnerGen = map[interface{}]genOf{}     // *reactive.Rerunner -> generation (rerunner number of Server/Model.v)
 )
 
 // ArmProceed makes the next n re-runs of this case wait at reactive.run.proceed (after the context check,
@@ -489,6 +528,11 @@ func (r *Recorder) middleware(input *graphql.ComputationInput, next graphql.Midd
 		}
 	}
 	e.Previous = roundTrip(input.Previous)
+	if out.Metadata != nil {
+		// travels to the client in the envelope's metadata (server.go: Metadata: output.Metadata)
+		out.Metadata["vrun"] = tok.N
+		out.Metadata["vgen"] = tok.Gen
+	}
 	r.mu.Lock()
 	r.gRun[goid()] = tok.N
 	r.addLocked(e)
